@@ -27,6 +27,8 @@ class Layout:
                 body = self._block(text, m.end() - 1)
                 fields = []
                 for part in self._split(body):
+                    if re.search(r'#\[cfg\(kani\)\]', part):
+                        continue    # verification-only twin of a field (container swap hook): not part of the normal build
                     part = re.sub(r'#\[[^\]]*\]', '', part).strip()
                     fm = re.match(r'^(?:pub(?:\([^)]*\))?\s+)?(\w+)\s*:', part)
                     if fm:
